@@ -511,10 +511,19 @@ def _check_shapes(prog: Program, res: Result):
         for d, lst in by_depth.items():
             treat = {}
             for key, src, val in lst:
-                wraps = [a for a in ast.walk(init.node) if isinstance(a, ast.Assign) and any(attr_chain(t) == src for t in a.targets) and isinstance(a.value, ast.List) and len(a.value.elts) == 1
-                         and isinstance(a.value.elts[0], ast.Name) and a.value.elts[0].id in init.params()]
-                guarded = [a for a in wraps if any(isinstance(g, ast.If) and any(a is x for b_ in g.body + g.orelse for x in ast.walk(b_)) and "isinstance" in ast.unparse(g.test) for g in ast.walk(init.node))]
-                treat[key] = bool(guarded)
+                def wraps_param(v, depth=0):
+                    """does the value contain [param] as one of its alternatives (conditional expression), directly or through a local"""
+                    if isinstance(v, ast.List) and len(v.elts) == 1 and isinstance(v.elts[0], ast.Name):
+                        return True
+                    if isinstance(v, ast.IfExp):
+                        return wraps_param(v.body, depth) or wraps_param(v.orelse, depth)
+                    if isinstance(v, ast.Name) and depth < 3:
+                        return any(isinstance(a2, ast.Assign) and any(isinstance(t2, ast.Name) and t2.id == v.id for t2 in a2.targets) and wraps_param(a2.value, depth + 1) for a2 in ast.walk(init.node))
+                    return False
+
+                wraps = [a for a in ast.walk(init.node) if isinstance(a, ast.Assign) and any(attr_chain(t) == src for t in a.targets) and wraps_param(a.value)]
+                conditional = [a for a in wraps if "isinstance" in ast.unparse(init.node)]
+                treat[key] = bool(conditional)
             if any(treat.values()):
                 for key, src, val in lst:
                     n += 1
